@@ -24,6 +24,9 @@ pub struct Monitors {
     pub notrade: bool,
     /// after a Reload op the reloaded object's snapshot must equal the one before
     pub reload_equal: bool,
+    /// model-free differential: the run h.reload.c must be indistinguishable (snapshot and
+    /// drain sequence) from the run h.c on a book that was never reloaded
+    pub reload_diff: bool,
 }
 
 #[derive(Clone, Debug)]
@@ -351,6 +354,59 @@ fn expand<const L: usize>(
                         detail: format!("the library panicked while the book was swept: {}", msg),
                     })
                 }
+            }
+        }
+        if cfg.monitors.reload_diff
+            && fails.is_empty()
+            && hist[base_len..].iter().any(|s| matches!(s.op, Op::Reload { .. }))
+        {
+            let plain: Vec<Step> = hist
+                .iter()
+                .map(|s| match s.op {
+                    // keep the clock advance of the removed reload step
+                    Op::Reload { .. } => Step { dt: 0, op: Op::SetTime { dt: s.dt } },
+                    _ => s.clone(),
+                })
+                .collect();
+            let r = util::subject(|| {
+                let mut b2 = build_book::<L>(&cfg.profile, &plain);
+                let s2 = Snap::take(&b2);
+                if s2 != after {
+                    return Err(format!("never-reloaded run vs reloaded run: {}", s2.describe_diff(&after)));
+                }
+                // sweep both real books and compare what executes
+                let mut b1 = build_book::<L>(&cfg.profile, &hist);
+                let sweep = |b: &mut OrderBook<L>| {
+                    b.enable_trading();
+                    let n0 = b.get_trades().len();
+                    for bid in [true, false] {
+                        b.set_time(b.get_time() + 1);
+                        let v = if bid { b.ask_vol() } else { b.bid_vol() } + 1;
+                        let _ = b.create_and_place_order(side_of(bid), v, 9, None);
+                    }
+                    (
+                        b.get_trades()[n0..].iter().map(TradeRec::of).collect::<Vec<_>>(),
+                        Snap::take(b),
+                    )
+                };
+                let (t1, f1) = sweep(&mut b1);
+                let (t2, f2) = sweep(&mut b2);
+                if t1 != t2 {
+                    return Err(format!("sweeping executes {:?} after reload but {:?} without", t1, t2));
+                }
+                if f1 != f2 {
+                    return Err(format!("after sweeping: {}", f2.describe_diff(&f1)));
+                }
+                Ok(())
+            });
+            match r {
+                Ok(Ok(())) => {}
+                Ok(Err(d)) => fails.push(Fail { monitor: "reload", clause: "diverges-from-never-reloaded".into(), detail: d }),
+                Err(msg) => fails.push(Fail {
+                    monitor: "panic",
+                    clause: format!("reload-diff/{}", util::panic_sig(&msg)),
+                    detail: msg,
+                }),
             }
         }
         drop(book);
